@@ -17,10 +17,10 @@ type GoStringer = realfmt.GoStringer
 type Scanner = realfmt.Scanner
 type ScanState = realfmt.ScanState
 
-func Print(a ...any) (int, error)                 { return vrt.Stdout.WriteString(realfmt.Sprint(a...)) }
-func Printf(f string, a ...any) (int, error)      { return vrt.Stdout.WriteString(realfmt.Sprintf(f, a...)) }
-func Println(a ...any) (int, error)               { return vrt.Stdout.WriteString(realfmt.Sprintln(a...)) }
-func Fprint(w io.Writer, a ...any) (int, error)   { return w.Write([]byte(realfmt.Sprint(a...))) }
+func Print(a ...any) (int, error)               { return vrt.Stdout.WriteString(realfmt.Sprint(a...)) }
+func Printf(f string, a ...any) (int, error)    { return vrt.Stdout.WriteString(realfmt.Sprintf(f, a...)) }
+func Println(a ...any) (int, error)             { return vrt.Stdout.WriteString(realfmt.Sprintln(a...)) }
+func Fprint(w io.Writer, a ...any) (int, error) { return w.Write([]byte(realfmt.Sprint(a...))) }
 func Fprintf(w io.Writer, f string, a ...any) (int, error) {
 	return w.Write([]byte(realfmt.Sprintf(f, a...)))
 }
